@@ -154,6 +154,9 @@ class Classes:
             self.register(sj["subs"][0]["cid"], cls.member_schema, "string")
         else:
             raise ValueError(k)
+        if k in SEQ_KINDS and sj.get("prune") is False:
+            # optional (round h8b): a NON-pruning sequence; only set_flat reads it (oracle-only routes)
+            cls = cls.using(prune_empty=False)
         cls = cls.named(sj["name"])
         over = {"optional": bool(sj["opt"])}
         if sj["default"] is not None:
@@ -530,6 +533,15 @@ class Exec:
                 operator.imul(target, op["n"]); return "ok"
             if name == "set_flat":
                 target.set_flat([(k, v) for k, v in op["pairs"]]); return "ok"
+            if name == "set_flat_rt":
+                # the flatten round trip on the sequence itself: native values (`flatten(value=lambda e: e.value)`,
+                # documented in Element.flatten) or, `"text": true`, the ordinary text form
+                if op.get("text"):
+                    pairs = target.flatten()
+                else:
+                    pairs = target.flatten(value=lambda e: e.value)
+                self.memo["rt_pairs"] = list(pairs)
+                target.set_flat(pairs); return "ok"
             if name == "reversed":
                 return ("els", list(reversed(target)))
             if name == "imul_bad":
@@ -1116,11 +1128,17 @@ def flat_keys(rng, s, prefix="", sep="_"):
             yield base
 
 
-def gen_flat_pairs(rng, s):
+# NATIVE flat values (what `flatten(value=lambda e: e.value)` yields and the library's tests feed to from_flat): ints
+# incl. zero and negatives, bools, None; '' and '0' as text for contrast
+NATIVE_POOL = [0, 0, 0, False, True, None, "", "0", 1, 2, 7, -1, -3, 10, "a", "12"]
+
+
+def gen_flat_pairs(rng, s, native=False):
     keys = list(flat_keys(rng, s))
     rng.shuffle(keys)
     keys = keys[:rng.randint(0, 6)]
-    pairs = [[k, rng.choice(STR_POOL)] for k in keys]
+    pool = NATIVE_POOL if native else STR_POOL
+    pairs = [[k, rng.choice(pool)] for k in keys]
     for _ in range(rng.choice([0, 0, 1, 2])):      # junk keys
         pairs.insert(rng.randint(0, len(pairs)), [rng.choice(["", "zz", "0", "a_", "l_x", (s["name"] or "q") + "_9_"]),
                                                   rng.choice(STR_POOL)])
@@ -1569,6 +1587,6 @@ def has_flat(case):
         return True
     for o in case["ops"]:
         for part in ("s", "m"):
-            if (o.get(part) or {}).get("op") in ("set_flat", "set_mixed"):
+            if (o.get(part) or {}).get("op") in ("set_flat", "set_mixed", "set_flat_rt"):
                 return True
     return False
